@@ -169,6 +169,20 @@ impl Scenario for C10 {
                 if rng.chance(1, 3) {
                     spec.aux = vec![1, rng.below(2 * kind.block_words() as u64 + 3)];
                     spec.seed2 = Some(gen_seed(rng, kind));
+                } else if rng.chance(1, 25) {
+                    // a crafted linear-engine state: one state word is zero right after a jump
+                    let mut tmp = Spec { ops: vec![], ..Default::default() };
+                    if make_zero_word_run(rng, &mut tmp, true) {
+                        let k = tmp.kind.unwrap();
+                        spec.kind = Some(k);
+                        spec.seed = tmp.seed;
+                        spec.pre = tmp.pre;
+                        let mut ops = tmp.ops; // the jump, if any
+                        ops.push(Op::Fork);
+                        ops.extend(gen_suffix(rng, k, 12));
+                        spec.ops = ops;
+                        spec.aux = vec![];
+                    }
                 }
             }
             8..=11 => {
